@@ -19,7 +19,9 @@ import c02_util as U
 PID = "C02"
 NAMESPACE = "Simu.C02"
 THEOREMS = [
-    "pressure_net_force_zero", "pressure_net_torque_zero", "pressure_is_dV", "volume_is_abs",
+    "pressure_net_force_zero", "pressure_net_torque_zero", "pressure_is_dV", "pressure_is_dV_computed",
+    "computed_volume_decomposition", "vector_area_closed", "reference_point_is_first_node", "volume_is_abs", "volume_is_abs_closed",
+    "volume_translate_exact",
     "tension_per_face_zero_force", "tension_per_face_zero_torque", "tension_net_force_zero", "tension_net_torque_zero",
     "tension_is_dA", "tension_node_force",
     "angle_net_force_zero", "angle_net_torque_zero", "angle_gradient_balanced",
@@ -27,7 +29,7 @@ THEOREMS = [
     "hinges_consistently_oriented", "closed_sides_paired",
     "internal_net_force_zero", "internal_net_torque_zero", "sum_node_forces", "slots_net_force_torque_zero", "slots_fresh",
     "orchestration_order",
-    "forces_translation_equivariant", "forces_rotation_equivariant", "node_force_rotation_equivariant",
+    "forces_translation_equivariant", "forces_translation_equivariant_exact", "forces_rotation_equivariant", "node_force_rotation_equivariant",
     "rot_axis_x", "rot_axis_y", "rot_axis_z", "rot_comp", "rot_of_orthonormal_rows", "hinge_example",
 ]
 GEN = ["Forces"]
@@ -184,11 +186,15 @@ def cell_scalars(case):
     v6 = Fr(0)
     mag = 0.0
     area = Decimal(0)
+    # compute_volume takes the coordinates relative to get_volume_reference_point() = first node of the first used face:
+    # the magnitude of the products it adds (hence its rounding error) is that of the CENTRED coordinates, at any distance
+    # from the origin
+    ref = v[f[0][0]]
     for t in f:
         a, b, c = t
         term = U.dot(VF[a], U.cross(VF[b], VF[c]))
         v6 += term
-        pa, pb, pc = v[a], v[b], v[c]      # the six triple products compute_volume adds for this face
+        pa, pb, pc = ([v[i][k] - ref[k] for k in range(3)] for i in (a, b, c))   # the six triple products compute_volume adds for this face
         mag += (abs(pc[0] * pb[1] * pa[2]) + abs(pb[0] * pc[1] * pa[2]) + abs(pc[0] * pa[1] * pb[2])
                 + abs(pa[0] * pc[1] * pb[2]) + abs(pb[0] * pa[1] * pc[2]) + abs(pa[0] * pb[1] * pc[2]))
         area += U.area_exact(VF, t)
@@ -271,7 +277,7 @@ def oracle_dA(case, ans, r, nsamp, sc):
     v, f = case["v"], case["f"]
     A, At = sc["A"], sc["At"]       # from the definitions, not from the cell
     aem = case["p"]["aem"]
-    # the cell's own volume carries the cancellation error of compute_volume; through A0 = cbrt(q0 V^2) it moves gamma_eff
+    # the cell's own volume carries the rounding error of compute_volume; through A0 = cbrt(q0 V^2) it moves gamma_eff
     relAt = (sc["Vtol"] / sc["V"] + 1e-14) if sc["V"] > 0 else 0.0
     dgam = abs(aem / At) * (2.0 * A / At + 1.0) * relAt if At != 0 else 0.0
     Ft = ans["forces"]["tension"]
@@ -536,9 +542,8 @@ def run(ctx):
             samples.append({"kind": c.get("kind"), "nodes": nn, "faces": nf, "P": a["P"], "V": a["V"], "A": a["A"],
                             "force_node0_all": a["forces"]["all"][0]})
         do_equiv = (tier == "thorough" and i % 2 == 0) or (tier == "quick" and (nf <= 400 or i < ncorp) and i % 2 == 0) or not proof["ok"]
-        # far from the origin the volume (hence the pressure) loses digits by cancellation in compute_volume
-        # (relative error ~ 1e-16 * (offset/size)^3): the moved-copy comparison is made on cells within 30 sizes
-        do_equiv = do_equiv and (c.get("offk") or 0) <= 30
+        # (while compute_volume summed un-centred determinants the moved-copy comparison had to stay within 30 sizes of the
+        # origin: the volume, hence the pressure, lost digits by cancellation — repaired by fixes/C12-centred-volume.diff)
         res, st = check_case(c, lines[i], a, r.fork("case%d" % i), nsamp, exe, do_equiv)
         checks["balance"] += 10
         for k in st:
